@@ -65,8 +65,16 @@ func zzExtBodyB() *ogen.RequestBody {
 	return &ogen.RequestBody{Description: "ext B", Content: map[string]ogen.Media{"text/plain": {Schema: zzStr()}}}
 }
 
+func zzExtSecK() *ogen.SecurityScheme {
+	return &ogen.SecurityScheme{Type: "apiKey", Name: "xk", In: "query", Description: "ext K"}
+}
+func zzRootSecK() *ogen.SecurityScheme {
+	return &ogen.SecurityScheme{Type: "apiKey", Name: "X-K", In: "header", Description: "root K"}
+}
+
 func zzExtDoc() *ogen.Spec {
 	return &ogen.Spec{Components: &ogen.Components{
+		SecuritySchemes: map[string]*ogen.SecurityScheme{"K": zzExtSecK()},
 		Parameters:    map[string]*ogen.Parameter{zzExtQ: zzExtParamQ()},
 		Headers:       map[string]*ogen.Header{"H": zzExtHeaderH()},
 		Examples:      map[string]*ogen.Example{"E": zzExtExampleE()},
@@ -134,6 +142,14 @@ func zzRoot(mask int) *ogen.Spec {
 	if bit(9) {
 		rPost = zzRootResponseR(bit(5), bit(6))
 	}
+	secKR := &ogen.SecurityScheme{Ref: "#/components/securitySchemes/K"} // site 10: a scheme that is a reference to another scheme
+	if bit(10) {
+		secKR = zzRootSecK()
+	}
+	secKX := &ogen.SecurityScheme{Ref: "ext.json#/components/securitySchemes/K"} // site 11: ... into the other file (same name, other content)
+	if bit(11) {
+		secKX = zzExtSecK()
+	}
 	node := &ogen.Schema{Type: "object", Properties: ogen.Properties{
 		{Name: "v", Schema: zzStr()},
 		{Name: "next", Schema: &ogen.Schema{Ref: "#/components/schemas/Node"}}, // schema cycle: recursive type
@@ -148,6 +164,7 @@ func zzRoot(mask int) *ogen.Spec {
 		Paths: ogen.Paths{
 			"/a": &ogen.PathItem{
 				Get: &ogen.Operation{OperationID: "getA", Parameters: []*ogen.Parameter{pExt, pRoot},
+					Security: ogen.SecurityRequirements{{"KR": {}}, {"KX": {}, "K": {}}},
 					Responses: ogen.Responses{"200": r200, "404": r404, "default": &ogen.Response{Description: "d"}}},
 				Put:  &ogen.Operation{OperationID: "putA", RequestBody: bPut, Responses: ogen.Responses{"204": &ogen.Response{Description: "done"}}},
 				Post: &ogen.Operation{OperationID: "postA", RequestBody: bPost, Responses: ogen.Responses{"200": rPost}},
@@ -155,6 +172,7 @@ func zzRoot(mask int) *ogen.Spec {
 		},
 		Components: &ogen.Components{
 			Schemas:       map[string]*ogen.Schema{"Node": node, "Pair": pair},
+			SecuritySchemes: map[string]*ogen.SecurityScheme{"K": zzRootSecK(), "KR": secKR, "KX": secKX},
 			Parameters:    map[string]*ogen.Parameter{zzRootQ: zzRootParamQ()},
 			Headers:       map[string]*ogen.Header{"H": zzRootHeaderH()},
 			Examples:      map[string]*ogen.Example{"E": zzRootExampleE()},
@@ -232,6 +250,10 @@ func zzResolvePointer(root *yaml.Node, ptr string, to any) error {
 	case **ogen.Example:
 		if kind == "examples" {
 			*t, found = d.Components.Examples[name]
+		}
+	case **ogen.SecurityScheme:
+		if kind == "securitySchemes" {
+			*t, found = d.Components.SecuritySchemes[name]
 		}
 	}
 	if !found {
@@ -330,6 +352,11 @@ func fpAPI(api *openapi.API) string {
 		for _, p := range op.Parameters {
 			out += "\n  P " + fpParam(p)
 		}
+		for i, req := range op.Security {
+			for _, sc := range req.Schemes {
+				out += "\n  S" + strconv.Itoa(i) + " " + sc.Name + "|" + sc.Security.Type + "|" + sc.Security.Name + "|" + sc.Security.In + "|" + sc.Security.Scheme + "|" + sc.Security.Description
+			}
+		}
 		if op.RequestBody != nil {
 			out += "\n  B " + op.RequestBody.Description + "|" + strconv.FormatBool(op.RequestBody.Required) + fpMedia(op.RequestBody.Content)
 		}
@@ -365,7 +392,7 @@ func HInline(sites, symNames int) {
 		zzRootQ, zzExtQ = string([]byte{a}), string([]byte{b})
 	}
 	mask := 0
-	for i := 0; i < 10; i++ {
+	for i := 0; i < 12; i++ {
 		if sites&(1<<i) != 0 && zz.Bool() {
 			mask |= 1 << i
 		}
@@ -381,6 +408,7 @@ func HInline(sites, symNames int) {
 	zz.Assert(got == ref, "replacing references by copies of their targets does not change the parsed API")
 	// the two same-named components stay distinct
 	zz.Assert(strings.Contains(ref, "P eq|header") && strings.Contains(ref, "P q|query"), "same-named components of the two files are not confused (parameters)")
+	zz.Assert(strings.Contains(ref, "S0 KR|apiKey|X-K|header||root K") && strings.Contains(ref, "KX|apiKey|xk|query||ext K"), "a security scheme given as a reference carries the fields of its target (same-named schemes of the two files are not confused)")
 	zz.Assert(strings.Contains(ref, "R200 ext R(X-H:X-H|header|simple|false|false|ext H|string:)"), "a relative reference inside the external file resolves against that file")
 	zz.Assert(strings.Contains(ref, "R404 root R(X-H:X-H|header|simple|false|false|root H|integer:)"), "a root-relative reference after a reference into another file resolves against the root")
 }
